@@ -2,6 +2,7 @@ import numpy as np
 from skglm.datafits import Quadratic
 from skglm.estimators import GeneralizedLinearEstimator
 from skglm.penalties import WeightedL1, L0_5
+from skglm.solvers import AndersonCD
 from skglm.utils.jit_compilation import compiled_clone
 
 
@@ -70,8 +71,13 @@ class IterativeReweightedL1(GeneralizedLinearEstimator):
 
         n_features = X.shape[1]
         _penalty = compiled_clone(WeightedL1(self.penalty.alpha, np.ones(n_features)))
-        self.datafit = compiled_clone(self.datafit)
-        self.penalty = compiled_clone(self.penalty)
+        # compile only once: on a second call to fit they are already compiled
+        if not hasattr(self.datafit, "_numba_type_"):
+            self.datafit = compiled_clone(self.datafit)
+        if not hasattr(self.penalty, "_numba_type_"):
+            self.penalty = compiled_clone(self.penalty)
+        if self.solver is None:
+            self.solver = AndersonCD(fit_intercept=False)
 
         self.loss_history_ = []
 
